@@ -134,7 +134,7 @@ Proof.
 Qed.
 
 Lemma snap_all_empty ids : snap_all ids [] = map (fun _ => RNoStream) ids.
-Proof. induction ids as [|i ids IH]; [reflexivity|]. cbn [snap_all map]. f_equal. exact IH. Qed.
+Proof. induction ids as [|i ids IH]; [reflexivity|]. unfold snap_all in *. cbn [map]. rewrite IH. reflexivity. Qed.
 
 (* ------------------------------------------------------------------------------------------ *)
 (* today's Clear: refutation with a computed witness (the case the harness reproduces) *)
